@@ -1,12 +1,12 @@
 \* witness: the last piece was released and its bytes handed out again (must be VIOLATED)
 SPECIFICATION Spec
 CONSTANTS S = 4
-          MaxAdd = 20
-          Bases = {8, 10}
-          Aligns = {1, 2, 4}
-          MaxSize = 5
-          MaxAllocs = 3
-          NMembers = 2
+          MaxAdd = 8
+          Bases = {8}
+          Aligns = {1, 2}
+          MaxSize = 3
+          MaxAllocs = 4
+          NMembers = 0
           CloneBases = "same"
           EmptyRange = FALSE
           Bug = "none"
